@@ -104,6 +104,8 @@ def docs():
 
 TEXTS = [('lf', 'a\nb\nc\n'), ('crlf', 'a\r\nb\r\nc\r\n'), ('mixed', 'a\nb\r\nc\n\r\nd'), ('nofinal', 'a\nb'), ('empty', ''),
          ('only-newline', '\n'), ('blank-lines', '\n\na\n\n'), ('utf8', 'zürich\n東京\n\U0001F511'), ('long', 'x' * 5000 + '\n' + 'y' * 3)]
+# texts signed through the cleartext framework whose lines end in blanks: RFC 4880 7.1 removes them before hashing
+TEXTS_BLANKS = [('blank-lf', 'a \nb\t\n'), ('blank-crlf', 'a \r\nb\t \r\nc'), ('blank-last', 'a\nb  '), ('blank-only', ' \r\n\t\r\n')]
 TEXTS_AMBIGUOUS = [('lone-cr', 'a\rb\r'), ('cr-cr-lf', 'a\r\r\nb')]
 
 UIDS = ['A', 'José García <jose@example.es>', '山田 太郎 (テスト) <taro@example.jp>',
@@ -425,6 +427,18 @@ class Prop(object):
                 o = {'sig': key.sign(msg, **kw), 'verify_subject': t, 'verifier': kpub, 'ref_key': raw,
                      'ref_subject': {'doc': t.encode('utf-8')}, 'want_type': 1}
                 both(o, {'subject': 'text', 'cls': name}, dict(case, only=name), 'text document %s' % name)
+            from refpgp import armor as rarmor
+            for name, t in TEXTS_BLANKS:
+                if only and name != only:
+                    continue
+                msg = pgpy.PGPMessage.new(t, cleartext=True)
+                # verified the way a cleartext message is: through the message object (7.1 canonical text on both sides)
+                o = {'sig': key.sign(msg, **kw), 'verify_subject': msg, 'verifier': kpub, 'ref_key': raw,
+                     'ref_subject': {'doc': rarmor.cleartext_canonical(t)}, 'want_type': 1}
+                msg |= o['sig']
+                r.states += 1
+                self._check_pgpy_made(r, dict(o, verify_subject=rarmor.cleartext_canonical(t).decode()),
+                                      {'subject': 'cleartext', 'cls': name}, dict(case, only=name), 'cleartext with trailing blanks %s' % name)
             r.extra['excluded_ambiguous_texts'] = len(TEXTS_AMBIGUOUS)
         elif part == 'uids':
             for i, ustr in enumerate(UIDS):
